@@ -130,8 +130,53 @@ def many_queries_set(seed, n):
     return [(1, length, pos)], queries
 
 
+def tie_set(seed):
+    """one long reference and one molecule that carries the same reference region twice (copy - other region - copy - four more labels; the region is
+    flanked by label-free stretches on the reference, the second copy starts at a multiple of the secondary resolution): the first pass aligns the
+    middle, the second pass aligns the two flanking fragments to the same locus with EXACTLY the same confidence although they differ in their number
+    of labels; which of the two is kept is decided by their order alone"""
+    rnd = random.Random(seed)
+    length, positions, p = 2400000, [], 3000
+    while p < length - 3000:
+        positions.append(p)
+        p += rnd.randint(3000, 14000)
+    a0 = rnd.randint(600000, 1000000)
+    a1, b0 = a0 + 150000, a0 + 200000
+    b1, desert = b0 + 240000, 45000
+    positions = [x for x in positions if not (a0 - desert <= x < a0 or a1 <= x < a1 + desert)]
+    region_a = [x for x in positions if a0 <= x < a1]
+    region_b = [x for x in positions if b0 <= x < b1]
+    origin_a, origin_b = region_a[0] - 500, region_b[0] - 500
+    query = [x - origin_a for x in region_a]
+    start_b = query[-1] + 6000
+    query += [x - origin_b + start_b for x in region_b]
+    start_a2 = ((query[-1] + 6000) // 100) * 100
+    query += [x - origin_a + start_a2 for x in region_a]
+    query += [query[-1] + d for d in (9000, 19700, 27300, 38100)]     # (inside the label-free stretch of the reference: they pair with nothing)
+    return [(1, length, positions)], [(7, query[-1] + 500, query)]
+
+
 def run_case(case):
     repo, seed, mode, cpu_list = case
+    if mode.startswith('tie:'):
+        mode = mode.split(':')[1]
+        refs, queries = tie_set(seed)
+        d = pl.make_workdir(refs, queries)
+        bad = []
+        try:
+            rc0, err0, base = run_cli(repo, d, 1, 0, mode, 'base')
+            if rc0 != 0:
+                return (seed, 'tie:' + mode), [('cli_run_succeeds', err0)], 1
+            for i, c in enumerate(cpu_list):
+                rc, err, files = run_cli(repo, d, c, 0, mode, f"v{i}")
+                if rc != 0:
+                    bad.append(('cli_run_succeeds', dict(cpus=c, error=err)))
+                elif files != base:
+                    bad.append(('output_identical_for_every_worker_count_and_repetition',
+                                dict(cpus=c, set='tie', files=[s for s in set(files) | set(base) if files.get(s) != base.get(s)])))
+        finally:
+            pl.cleanup(d)
+        return (seed, 'tie:' + mode), bad, len(cpu_list) + 1
     if mode.startswith('many:'):
         # results must not depend on how many queries one worker (or one block of work) gets: several hundred queries, 1 vs 2 workers
         mode = mode.split(':')[1]
@@ -161,6 +206,14 @@ def run_case(case):
         lab = flank + [flank[-1] + 30000 + p for p in mid]
         lab = lab + [lab[-1] + 30000 + p for p in flank]
         queries.append((900, lab[-1] + 1, lab))
+        # the same with the second copy at an offset that is a multiple of the secondary resolution and two more labels behind it: the two second-pass
+        # fragments then differ in their number of labels but their alignments still tie exactly - which of them is kept may depend on nothing but
+        # the (fixed) order of the fragments
+        lab2 = flank + [flank[-1] + 30000 + p for p in mid]
+        start2 = ((lab2[-1] + 30000) // 100) * 100
+        lab2 = lab2 + [start2 + p for p in flank]
+        lab2 = lab2 + [lab2[-1] + 9000, lab2[-1] + 19700]
+        queries.append((901, lab2[-1] + 500, lab2))
     d = pl.make_workdir(refs, queries)
     bad = []
     try:
@@ -183,10 +236,12 @@ def run_case(case):
 
 def bounded(repo, tier, seed):
     if tier == 'quick':
-        cases = [(repo, seed * 4001 + i, m, [2, 3, 8, 16]) for i, m in enumerate(['best', 'all', 'best'])] + [(repo, seed * 4001 + 77, 'many:all', [2])]
+        cases = [(repo, seed * 4001 + i, m, [2, 3, 8, 16]) for i, m in enumerate(['best', 'all', 'best'])] + [(repo, seed * 4001 + 77, 'many:all', [2]),
+                                                                                                                    (repo, seed * 4001 + 78, 'tie:best', [2, 3, 16])]
     else:
         cases = [(repo, seed * 4001 + i, m, [2, 3, 4, 8, 12, 16]) for i, m in enumerate(['best', 'all', 'joined', 'separate'] * 5)] + \
-                [(repo, seed * 4001 + 77 + i, 'many:' + m, [c]) for i, (m, c) in enumerate([('all', 2), ('separate', 3), ('joined', 4), ('best', 2)])]
+                [(repo, seed * 4001 + 77 + i, 'many:' + m, [c]) for i, (m, c) in enumerate([('all', 2), ('separate', 3), ('joined', 4), ('best', 2)])] + \
+                [(repo, seed * 4001 + 178 + i, 'tie:' + m, [2, 3, 4, 16]) for i, m in enumerate(['best', 'all', 'joined', 'best', 'all'])]
     from concurrent.futures import ThreadPoolExecutor
     with ThreadPoolExecutor(max_workers=4) as ex:
         res = list(ex.map(run_case, cases))
@@ -198,8 +253,8 @@ def bounded(repo, tier, seed):
             key = f"src/workflow_coordinator.py::_WorkflowCoordinator.execute::monitor::C09::{clause}"
             viol.setdefault(key, dict(key=key, blame='src/workflow_coordinator.py::_WorkflowCoordinator.execute', input=dict(seed=case[0], mode=case[1]),
                                       observed=detail, required='C09 statement'))
-    return result(tot, tot, "real CLI runs (separate processes, real p_tqdm worker pools) on generated sets incl. a query with two identical flanks (equal-confidence "
-                            "second-pass candidates): --cpus 1 (baseline and repetition), 2, 3, 8, 16, one set of 300 short queries with 1 and 2 workers, plus runs whose per-query workers sleep a seeded random "
+    return result(tot, tot, "real CLI runs (separate processes, real p_tqdm worker pools) on generated sets incl. two queries with two identical flanks (equal-confidence "
+                            "second-pass candidates, once with fragments of different label counts): --cpus 1 (baseline and repetition), 2, 3, 8, 16, one set of 300 short queries with 1 and 2 workers, one set with a dispersed duplication (two second-pass fragments of different size whose alignments tie exactly), plus runs whose per-query workers sleep a seeded random "
                             "0-30 ms (perturbed completion order); all XMAP files compared byte-wise except the '# coma' / '# hostname' header lines; "
                             "evaluations = CLI runs", [dict(seed=cases[0][1], mode=cases[0][2])], list(viol.values())[:5], exhaustive=False,
                   bounds=f"{len(cases)} sets x {len(cases[0][3]) + 4} runs")
@@ -207,5 +262,5 @@ def bounded(repo, tier, seed):
 
 def replay(repo, rp):
     mode = rp['input']['mode']
-    case, bad, _ = run_case((repo, rp['input']['seed'], mode, [2] if mode.startswith('many:') else [2, 3, 8, 16]))
+    case, bad, _ = run_case((repo, rp['input']['seed'], mode, [2] if mode.startswith('many:') else ([2, 3, 16] if mode.startswith('tie:') else [2, 3, 8, 16])))
     return (not bad), bad[:3]
